@@ -289,12 +289,19 @@ VARIANTS = [
      "new": "                gone = (msg.direction, msg.packet_id)\n                del self.unacked_reliable[gone]\n"},
     {"name": "P R4 resend loop as a generator the circuit drains", "expect": "silent", "edits": [
         {"file": BC, "old": "    def resend_unacked(self):\n", "new": "    def _due(self):\n"},
-        {"file": BC, "old": "            self._send_prepared_message(msg)\n\n    def send_acks",
+        {"file": BC, "old": "            try:\n                self._send_prepared_message(msg)\n            except Exception:\n"
+                            "                # One packet failing to go out mustn't keep the ones behind it from being resent\n"
+                            "                # or timed out, it gets its remaining tries like any other.\n"
+                            "                logging.exception(f\"Failed to resend {msg.packet_id}\")\n\n    def send_acks",
          "new": "            yield msg\n\n    def resend_unacked(self):\n        for due in self._due():\n"
-                "            self._send_prepared_message(due)\n\n    def send_acks"}]},
+                "            try:\n                self._send_prepared_message(due)\n            except Exception:\n"
+                "                logging.exception(\"Failed to resend\")\n\n    def send_acks"}]},
     {"name": "R4 generator form: drained items sent through self.send", "expect": "C05.R4", "edits": [
         {"file": BC, "old": "    def resend_unacked(self):\n", "new": "    def _due(self):\n"},
-        {"file": BC, "old": "            self._send_prepared_message(msg)\n\n    def send_acks",
+        {"file": BC, "old": "            try:\n                self._send_prepared_message(msg)\n            except Exception:\n"
+                            "                # One packet failing to go out mustn't keep the ones behind it from being resent\n"
+                            "                # or timed out, it gets its remaining tries like any other.\n"
+                            "                logging.exception(f\"Failed to resend {msg.packet_id}\")\n\n    def send_acks",
          "new": "            yield msg\n\n    def resend_unacked(self):\n        for due in self._due():\n"
                 "            self.send(due)\n\n    def send_acks"}]},
     # ------------------------------------------------------------------ round 7
@@ -380,4 +387,25 @@ VARIANTS = [
     {'name': 'P R5 ban refusal written inline after the ack bookkeeping', 'file': 'hippolyzer/lib/proxy/lludp_proxy.py', 'expect': 'silent', 'old': "        # Check for UDP bans on inbound messages. Only after the ACK bookkeeping: the packet was\n        # received and the ACKs riding on it are real even though the message won't be passed on.\n        if packet.incoming:\n            try:\n                self._ensure_message_allowed(message)\n            except PermissionError:\n                # ACKs the sender if needed and forwards the piggy-backed ACKs\n                region.circuit.drop_message(message)\n                raise\n\n", 'new': '        if packet.incoming and not self.message_xml.validate_udp_msg(message.name):\n            region.circuit.drop_message(message)\n            raise PermissionError(f"UDPBanned message {message.name}")\n\n'},
     {'name': 'R4 resend clock back to naive local time (audit C05#3 reverted)', 'file': 'hippolyzer/lib/base/message/circuit.py', 'expect': 'C05.R4', 'old': '    return dt.datetime.now(dt.timezone.utc)\n', 'new': '    return dt.datetime.now()\n'},
     {'name': 'P R4 resend clock with the tz passed by keyword', 'file': 'hippolyzer/lib/base/message/circuit.py', 'expect': 'silent', 'old': '    return dt.datetime.now(dt.timezone.utc)\n', 'new': '    return dt.datetime.now(tz=dt.timezone.utc)\n'},
+    # ------------------------------------------------------------------ audit round 2 (anchored on the fixed text: inapplicable until the fixes are committed)
+    {'name': 'R4 packet registered before it was handed to the transport (audit2 C05#1 reverted)', 'file': 'hippolyzer/lib/base/message/circuit.py', 'expect': 'C05.R4', 'old': "            packet = self._send_prepared_message(message, transport)\n            # If the message originates from us then we're responsible for resends. Only once it\n            # really went out: a packet that couldn't be serialized will never be ACKed.\n            if message.reliable and message.synthetic:\n                self.unacked_reliable[(message.direction, message.packet_id)] = ReliableResendInfo(\n                    last_resent=_utcnow(),\n                    message=message,\n                )\n            return packet\n", 'new': "            # If the message originates from us then we're responsible for resends.\n            if message.reliable and message.synthetic:\n                self.unacked_reliable[(message.direction, message.packet_id)] = ReliableResendInfo(\n                    last_resent=_utcnow(),\n                    message=message,\n                )\n            return self._send_prepared_message(message, transport)\n"},
+    {'name': 'R4 registered first, failed send only logged', 'file': 'hippolyzer/lib/base/message/circuit.py', 'expect': 'C05.R4', 'old': "            packet = self._send_prepared_message(message, transport)\n            # If the message originates from us then we're responsible for resends. Only once it\n            # really went out: a packet that couldn't be serialized will never be ACKed.\n            if message.reliable and message.synthetic:\n                self.unacked_reliable[(message.direction, message.packet_id)] = ReliableResendInfo(\n                    last_resent=_utcnow(),\n                    message=message,\n                )\n            return packet\n", 'new': '            if message.reliable and message.synthetic:\n                self.unacked_reliable[(message.direction, message.packet_id)] = ReliableResendInfo(\n                    last_resent=_utcnow(),\n                    message=message,\n                )\n            try:\n                return self._send_prepared_message(message, transport)\n            except BaseException:\n                logging.warning("send failed")\n                raise\n'},
+    {'name': 'P R4 registration after the send, entry built in a local, guard clause', 'file': 'hippolyzer/lib/base/message/circuit.py', 'expect': 'silent', 'old': "            packet = self._send_prepared_message(message, transport)\n            # If the message originates from us then we're responsible for resends. Only once it\n            # really went out: a packet that couldn't be serialized will never be ACKed.\n            if message.reliable and message.synthetic:\n                self.unacked_reliable[(message.direction, message.packet_id)] = ReliableResendInfo(\n                    last_resent=_utcnow(),\n                    message=message,\n                )\n            return packet\n", 'new': '            packet = self._send_prepared_message(message, transport)\n            if not (message.reliable and message.synthetic):\n                return packet\n            info = ReliableResendInfo(last_resent=_utcnow(), message=message)\n            self.unacked_reliable[(message.direction, message.packet_id)] = info\n            return packet\n'},
+    {'name': 'R4 a failed retransmission raises through the resend timer (audit2 C05#1 reverted)', 'file': 'hippolyzer/lib/base/message/circuit.py', 'expect': 'C05.R4', 'old': '            try:\n                self._send_prepared_message(msg)\n            except Exception:\n                # One packet failing to go out mustn\'t keep the ones behind it from being resent\n                # or timed out, it gets its remaining tries like any other.\n                logging.exception(f"Failed to resend {msg.packet_id}")\n', 'new': '            self._send_prepared_message(msg)\n'},
+    {'name': 'R4 failed retransmission caught only for struct.error', 'file': 'hippolyzer/lib/base/message/circuit.py', 'expect': 'C05.R4', 'old': '            try:\n                self._send_prepared_message(msg)\n            except Exception:\n                # One packet failing to go out mustn\'t keep the ones behind it from being resent\n                # or timed out, it gets its remaining tries like any other.\n                logging.exception(f"Failed to resend {msg.packet_id}")\n', 'new': '            try:\n                self._send_prepared_message(msg)\n            except struct.error:\n                # One packet failing to go out mustn\'t keep the ones behind it from being resent\n                # or timed out, it gets its remaining tries like any other.\n                logging.exception(f"Failed to resend {msg.packet_id}")\n'},
+    {'name': 'R4 failed retransmission logged and re-raised', 'file': 'hippolyzer/lib/base/message/circuit.py', 'expect': 'C05.R4', 'old': '                logging.exception(f"Failed to resend {msg.packet_id}")\n', 'new': '                logging.exception(f"Failed to resend {msg.packet_id}")\n                raise\n'},
+    {'name': 'P R4 failed retransmission contained by the timer loop instead', 'expect': 'silent', 'edits': [{'file': 'hippolyzer/lib/base/message/circuit.py', 'old': '            try:\n                self._send_prepared_message(msg)\n            except Exception:\n                # One packet failing to go out mustn\'t keep the ones behind it from being resent\n                # or timed out, it gets its remaining tries like any other.\n                logging.exception(f"Failed to resend {msg.packet_id}")\n', 'new': '            self._send_prepared_message(msg)\n'}, {'file': 'hippolyzer/lib/proxy/lludp_proxy.py', 'old': '                region.circuit.resend_unacked()\n', 'new': '                try:\n                    region.circuit.resend_unacked()\n                except Exception:\n                    LOG.exception("Failed to resend")\n'}]},
+    {'name': 'R4 failed retransmission caught around the whole timer loop', 'expect': 'C05.R4', 'edits': [{'file': 'hippolyzer/lib/base/message/circuit.py', 'old': '            try:\n                self._send_prepared_message(msg)\n            except Exception:\n                # One packet failing to go out mustn\'t keep the ones behind it from being resent\n                # or timed out, it gets its remaining tries like any other.\n                logging.exception(f"Failed to resend {msg.packet_id}")\n', 'new': '            self._send_prepared_message(msg)\n'}, {'file': 'hippolyzer/lib/proxy/lludp_proxy.py', 'old': '        while True:\n            await asyncio.sleep(0.1)\n            if self.session is None:\n                continue\n', 'new': '        try:\n            await self._resend_forever()\n        except Exception:\n            LOG.exception("Resends failed")\n\n    async def _resend_forever(self):\n        while True:\n            await asyncio.sleep(0.1)\n            if self.session is None:\n                continue\n'}]},
+    {'name': 'R4 resend timer skips circuits marked dead (audit2 C05#2 reverted)', 'file': 'hippolyzer/lib/proxy/lludp_proxy.py', 'expect': 'C05.R4', 'old': '                # Not gated on `is_alive`: a circuit that was marked dead by CloseCircuit / DisableSimulator\n                # still forwards and may have reliable packets of ours in flight, those need their resends\n                # (and a failure when they run out) too. A no-op once its unacked table has drained.\n                if not region.circuit:\n                    continue\n                region.circuit.resend_unacked()\n', 'new': '                if not region.circuit or not region.circuit.is_alive:\n                    continue\n                region.circuit.resend_unacked()\n'},
+    {'name': "R4 resend timer gated on the region's is_alive property", 'file': 'hippolyzer/lib/proxy/lludp_proxy.py', 'expect': 'C05.R4', 'old': '                # Not gated on `is_alive`: a circuit that was marked dead by CloseCircuit / DisableSimulator\n                # still forwards and may have reliable packets of ours in flight, those need their resends\n                # (and a failure when they run out) too. A no-op once its unacked table has drained.\n                if not region.circuit:\n                    continue\n                region.circuit.resend_unacked()\n', 'new': '                if not region.is_alive:\n                    continue\n                region.circuit.resend_unacked()\n'},
+    {'name': 'R4 resend timer gated on an aliased liveness flag', 'file': 'hippolyzer/lib/proxy/lludp_proxy.py', 'expect': 'C05.R4', 'old': '                # Not gated on `is_alive`: a circuit that was marked dead by CloseCircuit / DisableSimulator\n                # still forwards and may have reliable packets of ours in flight, those need their resends\n                # (and a failure when they run out) too. A no-op once its unacked table has drained.\n                if not region.circuit:\n                    continue\n                region.circuit.resend_unacked()\n', 'new': '                circuit = region.circuit\n                usable = circuit is not None and circuit.is_alive\n                if not usable:\n                    continue\n                circuit.resend_unacked()\n'},
+    {'name': 'P R4 resend timer skips a dead circuit only once its table has drained', 'file': 'hippolyzer/lib/proxy/lludp_proxy.py', 'expect': 'silent', 'old': '                # Not gated on `is_alive`: a circuit that was marked dead by CloseCircuit / DisableSimulator\n                # still forwards and may have reliable packets of ours in flight, those need their resends\n                # (and a failure when they run out) too. A no-op once its unacked table has drained.\n                if not region.circuit:\n                    continue\n                region.circuit.resend_unacked()\n', 'new': '                circuit = region.circuit\n                if not circuit or (not circuit.is_alive and not circuit.unacked_reliable):\n                    continue\n                circuit.resend_unacked()\n'},
+    {'name': 'P R4 resend timer tests the circuit against None', 'file': 'hippolyzer/lib/proxy/lludp_proxy.py', 'expect': 'silent', 'old': '                # Not gated on `is_alive`: a circuit that was marked dead by CloseCircuit / DisableSimulator\n                # still forwards and may have reliable packets of ours in flight, those need their resends\n                # (and a failure when they run out) too. A no-op once its unacked table has drained.\n                if not region.circuit:\n                    continue\n                region.circuit.resend_unacked()\n', 'new': '                if region.circuit is None:\n                    continue\n                region.circuit.resend_unacked()\n'},
+    {'name': 'P R4 registered first, registration taken back when the send fails', 'file': 'hippolyzer/lib/base/message/circuit.py', 'expect': 'silent', 'old': "            packet = self._send_prepared_message(message, transport)\n            # If the message originates from us then we're responsible for resends. Only once it\n            # really went out: a packet that couldn't be serialized will never be ACKed.\n            if message.reliable and message.synthetic:\n                self.unacked_reliable[(message.direction, message.packet_id)] = ReliableResendInfo(\n                    last_resent=_utcnow(),\n                    message=message,\n                )\n            return packet\n", 'new': '            if message.reliable and message.synthetic:\n                self.unacked_reliable[(message.direction, message.packet_id)] = ReliableResendInfo(\n                    last_resent=_utcnow(),\n                    message=message,\n                )\n            try:\n                return self._send_prepared_message(message, transport)\n            except BaseException:\n                self.unacked_reliable.pop((message.direction, message.packet_id), None)\n                raise\n'},
+    # ------------------------------------------------------------------ refactor round 8
+    {'name': 'P R4 acked ids gathered by a static helper handed the message (refac8 G2/3)', 'file': 'hippolyzer/lib/base/message/circuit.py', 'expect': 'silent', 'old': '    def collect_acks(self, message: Message):\n        effective_acks = list(message.acks)\n        if message.name == "PacketAck":\n            effective_acks.extend(x["ID"] for x in message["Packets"])\n        for ack in effective_acks:\n', 'new': '    @staticmethod\n    def _acked_ids(msg: Message) -> List[int]:\n        acked_ids = list(msg.acks)\n        if msg.name == "PacketAck":\n            acked_ids.extend(x["ID"] for x in msg["Packets"])\n        return acked_ids\n\n    def collect_acks(self, message: Message):\n        for ack in self._acked_ids(message):\n'},
+    {'name': 'R4 acked-ids helper forgets the PacketAck blocks', 'file': 'hippolyzer/lib/base/message/circuit.py', 'expect': 'C05.R4', 'old': '    def collect_acks(self, message: Message):\n        effective_acks = list(message.acks)\n        if message.name == "PacketAck":\n            effective_acks.extend(x["ID"] for x in message["Packets"])\n        for ack in effective_acks:\n', 'new': '    @staticmethod\n    def _acked_ids(msg: Message) -> List[int]:\n        acked_ids = list(msg.acks)\n        return acked_ids\n\n    def collect_acks(self, message: Message):\n        for ack in self._acked_ids(message):\n'},
+    {'name': 'R4 acked-ids helper takes the PacketAck blocks only when nothing is appended', 'file': 'hippolyzer/lib/base/message/circuit.py', 'expect': 'C05.R4', 'old': '    def collect_acks(self, message: Message):\n        effective_acks = list(message.acks)\n        if message.name == "PacketAck":\n            effective_acks.extend(x["ID"] for x in message["Packets"])\n        for ack in effective_acks:\n', 'new': '    @staticmethod\n    def _acked_ids(msg: Message) -> List[int]:\n        acked_ids = list(msg.acks)\n        if msg.name == "PacketAck" and not msg.acks:\n            acked_ids.extend(x["ID"] for x in msg["Packets"])\n        return acked_ids\n\n    def collect_acks(self, message: Message):\n        for ack in self._acked_ids(message):\n'},
+    {'name': 'P R9 tracker window default spelt as a class constant (refac8 G2/1)', 'file': 'hippolyzer/lib/proxy/circuit.py', 'expect': 'silent', 'old': '    def __init__(self, last_seen_id=0, maxlen=10000):\n', 'new': '    DEFAULT_MAXLEN: ClassVar[int] = 10000\n\n    def __init__(self, last_seen_id=0, maxlen=DEFAULT_MAXLEN):\n'},
+    {'name': 'R9 proxied circuit shrinks the window below the class-constant default', 'expect': 'C05.R9', 'edits': [{'file': 'hippolyzer/lib/proxy/circuit.py', 'old': '    def __init__(self, last_seen_id=0, maxlen=10000):\n', 'new': '    DEFAULT_MAXLEN: ClassVar[int] = 10000\n\n    def __init__(self, last_seen_id=0, maxlen=DEFAULT_MAXLEN):\n'}, {'file': 'hippolyzer/lib/proxy/circuit.py', 'old': '        self.in_injections = InjectionTracker(0)\n', 'new': '        self.in_injections = InjectionTracker(0, maxlen=256)\n'}]},
 ]
